@@ -3,7 +3,7 @@ The Spec's determinantal divisors (lists, Laplace expansion, sorted index subset
 Mathlib-side `dk`.
 -/
 import DSymVerif.Proofs.InvariantsDet
-import DSymVerif.Proofs.InvariantsSmall
+import DSymVerif.Proofs.InvariantsMatrix
 import DSymVerif.Spec.C14
 import Mathlib.Data.Fin.Tuple.Sort
 import Mathlib.Data.List.Sort
